@@ -34,6 +34,7 @@ ASSUMPTIONS = ["number fields have at most 4300 digits: beyond that CPython's in
 # the *unrepaired* patterns (driver op `fsw`, Tahoe.Uri.specAsWritten) instead of the repaired ones (`fs`).  On the
 # unrepaired tree that comparison has 0 disagreements, which is how the as-written recognisers were validated.
 import os as _os
+CORPUS_ONLY = bool(_os.environ.get("VERIF_CORPUS_ONLY"))   # run only the fixed corpus (no random families)
 FS_OP = "fsw" if _os.environ.get("C15_MODEL") == "as-written" else "fs"
 
 
@@ -56,6 +57,17 @@ def corpus(rng):
            dchk.replace(b":3:", b":003:"), dchkv + b"x", dchkv.replace(b":3:", b":03:"),
            mdmf + b":3:131073", mdmf + b":3:131073\n", mdmf + b"\n\n", mdmf + b":", chk + b"\n\n", b"URI:LIT:\n", b"URI:LIT:",
            b"ro." + chk, b"imm." + chk + b"\n", b"ro." + ssk, b"imm." + lit, chk[:-4] + b"0", chk[:-4] + b"00"]
+    # seed C15-a (widened BASE32CHAR_{3,2,1}bits classes): last character of a base32 field with non-zero padding
+    # bits, top padding bit clear — 128-bit field ...'b' (canonical ends in a multiple of 4), 256-bit field ...'b'/'h',
+    # LIT bodies of 1/2/4 bytes with a non-canonical tail
+    z128, z256 = b"a" * 25, b"a" * 51
+    out += [b"URI:SSK:" + z128 + b"b:" + z256 + b"a", b"URI:SSK:" + z128 + b"a:" + z256 + b"b",
+            b"URI:SSK-RO:" + z128 + b"a:" + z256 + b"h", b"URI:CHK:" + z128 + b"b:" + z256 + b"a:3:10:5",
+            b"URI:MDMF-Verifier:" + z128 + b"c:" + z256 + b"a", b"URI:DIR2:" + z128 + b"b:" + z256 + b"a",
+            b"URI:LIT:ab", b"URI:LIT:aaab", b"URI:LIT:aaaaaab", b"URI:DIR2-LIT:ab"]
+    # seed C15-b (both alleged prefixes stripped): imm. then ro. in front of immutable / verifier caps
+    out += [b"imm.ro." + chk, b"imm.ro." + lit, b"imm.ro." + chkv, b"imm.ro." + dchk, b"ro.imm." + chk, b"ro.ro." + lit,
+            b"imm.imm." + lit, b"imm.ro." + ssk]
     return out
 
 
@@ -158,10 +170,12 @@ def run_orders(ctx, replay_order=None):
     parsed before): every ordered pair of kinds, random permutations of all 18 (module reloaded before each order),
     and a few orders in really fresh processes.  Each string is the to_string() of a cap built with the real
     constructors, so it must parse back to the same kind and print itself."""
+    import random
     rng = ctx.rng
     caps = {}
     for (tag, is_dir) in U.ALL_KINDS:
-        c = U.rand_cap(rng, tag, is_dir)
+        # fixed caps: the order corpus (all ordered pairs + one fresh process) does not depend on VERIF_SEED
+        c = U.rand_cap(random.Random("C15-order-%s-%s" % (tag, is_dir)), tag, is_dir)
         caps[("D" if is_dir else "F") + tag] = c.to_string()
     kinds = sorted(caps)
     kind_of = {s: k for k, s in caps.items()}
@@ -172,14 +186,16 @@ def run_orders(ctx, replay_order=None):
     else:
         pairs = [[caps[a], caps[b]] for a in kinds for b in kinds if a != b]
         perms = []
-        for _ in range(ctx.budget(20, 400)):
+        for _ in range(0 if CORPUS_ONLY else ctx.budget(20, 400)):
             o = [caps[k] for k in kinds]
             rng.shuffle(o)
             perms.append(o)
         batches = [("reload", pairs + perms)]
+        # corpus: the DIR2-Verifier-first order of seed C15-c in a really fresh process; then seeded extra orders
+        batches.append(("fresh", [[caps["DSSKV"], caps["DCHKV"]] + [caps[k] for k in kinds if k not in ("DSSKV", "DCHKV")]]))
         firsts = kinds[:]
         rng.shuffle(firsts)
-        for a in firsts[:ctx.budget(3, 18)]:
+        for a in firsts[:(0 if CORPUS_ONLY else ctx.budget(3, 18))]:
             rest = [k for k in kinds if k != a]
             rng.shuffle(rest)
             batches.append(("fresh", [[caps[a]] + [caps[k] for k in rest]]))
@@ -227,7 +243,7 @@ def run(ctx):
         for s in corpus(rng):
             strings.append(("corpus", s))
         for (tag, is_dir) in U.ALL_KINDS:
-            for i in range(n_caps):
+            for i in range(0 if CORPUS_ONLY else n_caps):
                 c = U.rand_cap(rng, tag, is_dir)
                 objs.append(c)
                 s = c.to_string()
@@ -244,7 +260,7 @@ def run(ctx):
                         if rng.random() < 0.2:
                             m = rng.choice([b"ro.", b"imm."]) + m
                         strings.append((lab, m))
-        for _ in range(n_rand):
+        for _ in range(0 if CORPUS_ONLY else n_rand):
             strings.append(("random", U.random_string(rng)))
 
     # --- from_string on every string in both contexts
@@ -273,7 +289,7 @@ def run(ctx):
         impl.append(hx(c.to_string()))
         cases.append({"cap": U.describe(c)})
         ctx.case(("ts", U.describe(c)))
-    for _ in range(ctx.budget(300, 6000)):
+    for _ in range(0 if CORPUS_ONLY else ctx.budget(300, 6000)):
         # odd lengths exercise b2a on every length class; verifier classes assert len(si)==16, so use key-bearing classes
         kind = rng.choice(["CHK", "SSK", "SSKRO", "MDMF", "MDMFRO", "LIT"])
         a, b = U.rand_bytes(rng, rng.randrange(0, 24)), U.rand_bytes(rng, rng.randrange(0, 40))
@@ -292,7 +308,7 @@ def run(ctx):
 
     # --- base32 and decimal helpers at function granularity
     lines, impl, cases = [], [], []
-    for _ in range(ctx.budget(400, 8000)):
+    for _ in range(0 if CORPUS_ONLY else ctx.budget(400, 8000)):
         b = U.rand_bytes(rng, rng.randrange(0, 45))
         lines.append("b2a " + hx(b)); impl.append(hx(base32.b2a(b))); cases.append({"b2a": hx(b)})
         enc = base32.b2a(b)
